@@ -21,7 +21,7 @@ func VerifCompiled() {
 	}
 	before := ""
 	if verifNative() {
-		before = VerifSexpr(jp.ast)
+		before = verifFingerprint(jp)
 	}
 	doc := verifNondetJSON(depth)
 	verifFreeze()
@@ -29,7 +29,7 @@ func VerifCompiled() {
 	verifThaw()
 	verifNote("err", err != nil)
 	if verifNative() {
-		verifAssert(VerifSexpr(jp.ast) == before, "frame-write")
+		verifAssert(verifFingerprint(jp) == before, "frame-write")
 	}
 }
 
